@@ -1,6 +1,6 @@
 CONSTANTS
   RuleAlphabet = {"^", "$", "a", "."}
-  HostAlphabet = {"a", "b", "."}
+  HostAlphabet = {"a", ".", "A", " "}
   MaxRule = 2
   MaxHost = 3
   Mode = "policy"
@@ -8,7 +8,9 @@ CONSTANTS
   ProxyPats <- DefaultProxyPats
   CacheKey = "raw"
   HistRule = 1
-  HistLen = 3
+  HistLen = 2
+  AllowedAlphabet <- PlainAlphabet
+  PollAlphabet <- CaseBlankAlphabet
 SPECIFICATION PSpec
 INVARIANTS HistoryIndependent RejectedNeverRegistered ExplicitReject RegisteredAcceptsAllowed
 CHECK_DEADLOCK FALSE
